@@ -90,7 +90,21 @@ func NewEngine(repo, verif string) (*Engine, error) {
 			if root.Pkg == nil {
 				continue
 			}
-			e.fnByKey[qualFnName(fn)] = fn
+			// keys use the short package name; on a collision (the repo's "net" and the standard one) the
+			// repo's function wins, otherwise the lexically smaller package path: deterministic either way
+			k := qualFnName(fn)
+			if old := e.fnByKey[k]; old != nil {
+				oroot := old
+				for oroot.Parent() != nil {
+					oroot = oroot.Parent()
+				}
+				op, np := oroot.Pkg.Pkg.Path(), root.Pkg.Pkg.Path()
+				oRepo, nRepo := strings.HasPrefix(op, "github.com/Jigsaw-Code/outline-ss-server"), strings.HasPrefix(np, "github.com/Jigsaw-Code/outline-ss-server")
+				if (oRepo && !nRepo) || (oRepo == nRepo && op <= np) {
+					continue
+				}
+			}
+			e.fnByKey[k] = fn
 		}
 	}
 	e.contracts = NewContracts()
@@ -136,6 +150,12 @@ func NewEngine(repo, verif string) (*Engine, error) {
 		return nil, err
 	}
 	e.registerInitConsts()
+	e.lostConsts = map[string]bool{}
+	for _, k := range e.baseNames.InitConsts {
+		if _, ok := e.initConsts[k]; !ok {
+			e.lostConsts[k] = true
+		}
+	}
 	return e, nil
 }
 
@@ -1492,12 +1512,6 @@ func (e *Engine) computeAliases(verif string) {
 		return
 	}
 	e.baseNames = base
-	e.lostConsts = map[string]bool{}
-	for _, k := range base.InitConsts {
-		if _, ok := e.initConsts[k]; !ok {
-			e.lostConsts[k] = true
-		}
-	}
 	cur := e.currentNames()
 	for tk, bf := range base.Structs {
 		if cf, ok := cur.Structs[tk]; ok {
